@@ -204,6 +204,14 @@ def gen_cases(tier, seed):
             if 'subs' not in t and rng.random() < 0.12:
                 t['subs'] = rng.choice([[{'only': ['on_progress']}], [{}, {'only': ['on_progress', 'on_done']}]])
     rng.shuffle(cases)
+    # uploads through a manager whose client is (or was) also used by another manager / the legacy front-end: progress callbacks are
+    # switched on per request by handlers registered on the CLIENT
+    for i in range(30 if quick else 300):
+        T, C = rng.choice([(16, 8), (8, 8)])
+        t = {'kind': 'upload', 'src': rng.choice(['path', 'seekable', 'nonseekable']), 'size': rng.choice([5, T - 1, T, 3 * C + 1])}
+        cases.append({'seed': rng.randrange(1 << 30), 'min_part': C, 'config': dict(multipart_threshold=T, multipart_chunksize=C, max_request_concurrency=rng.choice([1, 2])),
+                      'transfers': [t], 'prior_use': rng.choice(['legacy', 'manager', 'overlap']), 'family': 'shared-client'})
+
     from ..gen import sprinkle
 
     sprinkle(cases, seed)
